@@ -592,17 +592,7 @@ def _header_rebinds_current(ctx, run):
             n += 1
             hit = {b for b, ev in flow.all_events(f) if st_cur(f, ev)}
             # exits reachable from the case head without passing a store to curr_sp
-            seen, stack, bad = set(), [h], None
-            while stack:
-                b = stack.pop()
-                if b in seen or b in hit:
-                    continue
-                seen.add(b)
-                if b == f.exit:
-                    bad = b
-                    break
-                for s2, _ in f.edges(b):
-                    stack.append(s2)
+            bad = atoms.exit_reachable_avoiding(f, h, hit)
             key = "RF-CORR:%s:header-rebinds-current" % f.name
             if bad is None:
                 run.holds("RF-CORR", key, "every path of the packet-header case assigns %s" % F_CUR, "%s:%d" % (f.file, f.line))
